@@ -203,7 +203,7 @@ Qed.
 Lemma existsb_seq_pick : forall (g : N -> bool) n j,
   existsb (fun b => (b =? j) && g b) (map N.of_nat (seq 0 n)) = (j <? N.of_nat n) && g j.
 Proof.
-  intros g n j. induction n as [|n IH]; [cbn; destruct (g j); reflexivity|].
+  intros g n j. induction n as [|n IH]; [cbn [seq map existsb]; now destruct j|].
   rewrite seq_S, map_app, existsb_app, IH. cbn [plus map existsb]. rewrite orb_false_r.
   destruct (N.eqb_spec (N.of_nat n) j) as [<-|Hn].
   - replace (N.of_nat n <? N.of_nat n) with false by (symmetry; apply N.ltb_irrefl).
@@ -307,3 +307,9 @@ Definition normalized (raw : str) : Prop := normalize raw = raw.
 
 Lemma normalized_pat_ok : forall raw, name_ok raw = true -> normalized raw -> pat_ok raw = true.
 Proof. intros raw Hn Hz. rewrite <- Hz. now apply normalize_pat_ok. Qed.
+
+Lemma existsb_ext_in : forall {A} (f g : A -> bool) l, (forall x, In x l -> f x = g x) -> existsb f l = existsb g l.
+Proof.
+  intros A f g l. induction l as [|a l IH]; intros H; cbn; [reflexivity|].
+  rewrite (H a (or_introl eq_refl)), IH; [reflexivity|]. intros x Hx. apply H. now right.
+Qed.
